@@ -147,7 +147,16 @@ fn main() {
                 }
                 PROGRESS.fetch_add(1, std::sync::atomic::Ordering::SeqCst);
                 // a case yields one record, or an array of records
-                match exec(&case) {
+                // a panic that escapes a recorder's own guards is still an observation of the code under test: the
+                // case comes back marked, TLC cannot evaluate its relation on it, and the record counts as rejected
+                let res = std::panic::catch_unwind(std::panic::AssertUnwindSafe(|| exec(&case))).unwrap_or_else(|_| {
+                    let mut c = case.clone();
+                    if let Some(o) = c.as_object_mut() {
+                        o.insert("recorder_panic".into(), serde_json::json!(1));
+                    }
+                    c
+                });
+                match res {
                     serde_json::Value::Array(recs) => {
                         for rec in recs {
                             serde_json::to_writer(&mut out, &rec).unwrap();
